@@ -7,6 +7,7 @@ pub mod c06;
 pub mod c07;
 pub mod c09;
 pub mod c10;
+pub mod c11;
 pub mod c12;
 pub mod c13;
 pub mod c16;
@@ -30,6 +31,7 @@ pub fn run(ctx: &Ctx, sink: &mut Sink) -> bool {
         "C08" => c09::run_c08(ctx, sink),
         "C09" => c09::run_c09(ctx, sink),
         "C10" => c10::run_prop(ctx, sink),
+        "C11" => c11::run_prop(ctx, sink),
         "C12" => c12::run_prop(ctx, sink),
         "C13" => c13::run_prop(ctx, sink),
         "C16" => c16::run_prop(ctx, sink),
